@@ -25,37 +25,56 @@ def ruleName (m : Marker) : Option String :=
 
 def dotted (parts : List String) : String := ".".intercalate parts
 
-/-- entries of one (single-name) leaf field under the marker list `ms` -/
-def leafEntries (path : List String) (name : String) (ty : Ty) (ms : List Marker) (fv : Val) : Option (List Entry) :=
-  ms.foldlM (fun acc m =>
-    match ruleName m with
-    | none => some acc
-    | some r =>
-      if applies r ty then
-        match violates r m.expr ty fv with
-        | none => none                         -- outside the documented domain
-        | some true => some (acc ++ [{ path := path ++ [name], type := r, value := fv.repr }])
-        | some false => some acc
-      else some acc) []
+/-- the entry (if any) of one written marker on one leaf field -/
+def markerEntry (path : List String) (name : String) (ty : Ty) (m : Marker) (fv : Val) : Option (List Entry) :=
+  match ruleName m with
+  | none => some []
+  | some r =>
+    if applies r ty then
+      match violates r m.expr ty fv with
+      | none => none                         -- outside the documented domain
+      | some true => some [{ path := path ++ [name], type := r, value := fv.repr }]
+      | some false => some []
+    else some []
+
+/-- entries of one (single-name) leaf field under the marker list `ms`, in marker order -/
+def leafEntries (path : List String) (name : String) (ty : Ty) : List Marker → Val → Option (List Entry)
+  | [], _ => some []
+  | m :: ms, fv =>
+    match markerEntry path name ty m fv, leafEntries path name ty ms fv with
+    | some e, some rest => some (e ++ rest)
+    | _, _ => none
 
 def getField (v : Val) (f : String) : Option Val :=
   match v with
   | .strukt fs => fs.lookup f
   | _ => none
 
+/-- every name of a multi-name field is a field of its own -/
+def namesEntries (path : List String) (ty : Ty) (ms : List Marker) (sv : Val) : List String → Option (List Entry)
+  | [] => some []
+  | n :: ns =>
+    match getField sv n with
+    | none => none
+    | some fv =>
+      match leafEntries path n ty ms fv, namesEntries path ty ms sv ns with
+      | some a, some b => some (a ++ b)
+      | _, _ => none
+
 mutual
 def fieldEntries (tm : List Marker) (path : List String) (sv : Val) : FieldT → Option (List Entry)
-  | .leaf names ty doc =>
-    let ms := tm ++ sortById (markersOfDoc doc)
-    names.foldlM (fun acc n =>
-      match getField sv n with
-      | none => none
-      | some fv => (leafEntries path n ty ms fv).map (acc ++ ·)) []
-  | .nest names _ fields =>
-    names.foldlM (fun acc n =>
-      match getField sv n with
-      | none => none
-      | some nv => (fieldsEntries tm (path ++ [n]) nv fields).map (acc ++ ·)) []
+  | .leaf names ty doc => namesEntries path ty (tm ++ sortById (markersOfDoc doc)) sv names
+  | .nest names _ fields => nestEntries tm path sv fields names
+/-- a nested anonymous struct declared with the names `ns` (one nested struct per name) -/
+def nestEntries (tm : List Marker) (path : List String) (sv : Val) (fields : List FieldT) : List String → Option (List Entry)
+  | [] => some []
+  | n :: ns =>
+    match getField sv n with
+    | none => none
+    | some nv =>
+      match fieldsEntries tm (path ++ [n]) nv fields, nestEntries tm path sv fields ns with
+      | some a, some b => some (a ++ b)
+      | _, _ => none
 def fieldsEntries (tm : List Marker) (path : List String) (sv : Val) : List FieldT → Option (List Entry)
   | [] => some []
   | f :: fs =>
